@@ -38,6 +38,30 @@ type OPost struct {
 	Pre  bool   `json:"pre"` // read through a postings list / iterator reused from the previous probes
 }
 
+// OIter: a random Next/Advance sequence on one postings list with an exclusion bitmap and detail flags
+type OIterCall struct {
+	Op  string `json:"op"`
+	T   int    `json:"t"`
+	Nil bool   `json:"nil"`
+	Hit OHit   `json:"hit"`
+}
+
+type OIter struct {
+	F     B           `json:"f"`
+	T     B           `json:"t"`
+	Ex    Ints        `json:"ex"`
+	Cls   int         `json:"cls"` // 0 no details, 1 freq/norm, 2 freq/norm/locations
+	N     int         `json:"n"`   // Count()
+	Calls []OIterCall `json:"calls"`
+}
+
+type IterProbe struct {
+	F, T  string
+	Ex    []int
+	Flags [3]bool
+	Skips []int // per call: -1 = Next, s >= 0 = Advance(last + 1 + s)
+}
+
 type ODictEnt struct {
 	T B   `json:"t"`
 	N int `json:"n"`
@@ -117,6 +141,7 @@ type Obs struct {
 	VStats  []OVStat   `json:"vstats"`
 	Errs    []OErr     `json:"errs"`
 	Sampled []B        `json:"sampled"`
+	Iter    []OIter    `json:"iter"`
 }
 
 // OErr records an error or panic of an in-domain call, per aspect.
@@ -138,6 +163,7 @@ type Probes struct {
 	Vec      []VecProbe
 	NoStored bool
 	Sampled  []string // fields whose postings probes are a sample of the input terms
+	Iter     []IterProbe
 }
 
 func bs(ss []string) []B {
@@ -221,7 +247,7 @@ func bmOf(xs []int) *roaring.Bitmap {
 
 func emptyObs() *Obs {
 	return &Obs{Fields: []B{}, DvF: []B{}, Dicts: []ODict{}, Posts: []OPost{}, Stored: []OStored{},
-		DocNums: []ODocNums{}, Dv: []ODv{}, Thes: []OThes{}, Vec: []OVec{}, VStats: []OVStat{}, Errs: []OErr{}, Sampled: []B{}}
+		DocNums: []ODocNums{}, Dv: []ODv{}, Thes: []OThes{}, Vec: []OVec{}, VStats: []OVStat{}, Errs: []OErr{}, Sampled: []B{}, Iter: []OIter{}}
 }
 
 // Observe projects seg.  Each aspect is guarded: an error or panic of an
@@ -229,7 +255,7 @@ func emptyObs() *Obs {
 // infrastructure failure); unrepresentable values abort the run (exit 2).
 func Observe(seg segment.Segment, pr *Probes) (o *Obs) {
 	o = &Obs{Fields: []B{}, DvF: []B{}, Dicts: []ODict{}, Posts: []OPost{}, Stored: []OStored{},
-		DocNums: []ODocNums{}, Dv: []ODv{}, Thes: []OThes{}, Vec: []OVec{}, VStats: []OVStat{}, Errs: []OErr{}, Sampled: bs(pr.Sampled)}
+		DocNums: []ODocNums{}, Dv: []ODv{}, Thes: []OThes{}, Vec: []OVec{}, VStats: []OVStat{}, Errs: []OErr{}, Sampled: bs(pr.Sampled), Iter: []OIter{}}
 	guard := func(asp string, f func() error) {
 		defer func() {
 			if r := recover(); r != nil {
@@ -260,6 +286,7 @@ func Observe(seg segment.Segment, pr *Probes) (o *Obs) {
 		return nil
 	})
 	guard("dicts", func() error { return observeDicts(seg, pr, o) })
+	guard("iter", func() error { return observeIter(seg, pr, o) })
 	if !pr.NoStored {
 		guard("stored", func() error { return observeStored(seg, pr, o) })
 	}
@@ -427,6 +454,62 @@ func observeDv(dvv segment.DocValueVisitable, pr *Probes, o *Obs) error {
 			}
 			o.Dv = append(o.Dv, od)
 		}
+	}
+	return nil
+}
+
+func observeIter(seg segment.Segment, pr *Probes, o *Obs) error {
+	for i := range pr.Iter {
+		p := &pr.Iter[i]
+		d, e := seg.Dictionary(p.F)
+		if e != nil {
+			return e
+		}
+		pl, e := d.PostingsList([]byte(p.T), bmOf(p.Ex), nil)
+		if e != nil {
+			return e
+		}
+		cls := 0
+		if p.Flags[2] {
+			cls = 2
+		} else if p.Flags[0] || p.Flags[1] {
+			cls = 1
+		}
+		oi := OIter{F: B(p.F), T: B(p.T), Ex: Ints(p.Ex), Cls: cls, N: ckInt(pl.Count()), Calls: []OIterCall{}}
+		if oi.Ex == nil {
+			oi.Ex = Ints{}
+		}
+		it := pl.Iterator(p.Flags[0], p.Flags[1], p.Flags[2], nil)
+		last := -1
+		for _, s := range p.Skips {
+			var po segment.Posting
+			c := OIterCall{Op: "next", Hit: OHit{Locs: []OLoc{}}}
+			if s < 0 {
+				po, e = it.Next()
+			} else {
+				c.Op, c.T = "advance", last+1+s
+				po, e = it.Advance(uint64(c.T))
+			}
+			if e != nil {
+				return e
+			}
+			if po == nil {
+				c.Nil = true
+				oi.Calls = append(oi.Calls, c)
+				break
+			}
+			h := OHit{D: ckInt(po.Number()), Fr: ckInt(po.Frequency()), Locs: []OLoc{}}
+			if nu, ok := po.(interface{ NormUint64() uint64 }); ok {
+				h.Nm = ckInt(nu.NormUint64())
+			}
+			for _, l := range po.Locations() {
+				h.Locs = append(h.Locs, OLoc{F: B(l.Field()), P: ckInt(l.Pos()), S: ckInt(l.Start()), E: ckInt(l.End()), AP: ap2ints(l.ArrayPositions())})
+			}
+			c.Hit = h
+			last = h.D
+			oi.Calls = append(oi.Calls, c)
+		}
+		o.Iter = append(o.Iter, oi)
 	}
 	return nil
 }
